@@ -387,7 +387,7 @@ func TestC07_Upgrade(t *testing.T) {
 		"disturbed upgrades: WebSocket link cut at a drawn byte offset 0..400 in either direction (handshake, probe, pong, UPGRADE) or black-holed (both upgrade timeouts fire); then traffic after 15 s, "+
 		"3 heartbeat periods, traffic again; oracle: multiset received == sent on both sides, no OnClose, completed upgrade => websocket on both sides, disturbed => both sides agree on the transport and traffic keeps flowing; non-trivial = a message handed to Send before the upgrade completed, or a disturbed upgrade followed by traffic")
 	rapidGuard(t, "C07", c07Check)
-	runRapid(t, c07Check, tierN(4000, 120000), func(t *rapid.T) {
+	runRapid(t, c07Check, tierN(12000, 160000), func(t *rapid.T) {
 		c := genC07Case(t)
 		f, nt := evalC07(c)
 		ev.Case(c, nt, c.class())
